@@ -68,17 +68,57 @@ pub fn explore(
     seen.insert(AnySolver::new(cfg).fingerprint());
     let mut closure = false;
     let max_depth = alpha.len() + 2;
+    let n = alpha.len();
+    // operations: k < n = solve(alpha[k]); k >= n (SLG, goals with unknowns) = "the caller
+    // enumerates answers of alpha[k - n] and stops after the first one" — an earlier use of the
+    // same solver that leaves its tables partially filled. Only `solve` transitions are judged.
+    let enum_ops: Vec<usize> = if cfg.is_slg() {
+        (0..n).filter(|&k| !alpha[k].peeled.var_creation.is_empty()).map(|k| k + n).collect()
+    } else {
+        vec![]
+    };
+    let apply = |solver: &mut AnySolver, op: usize| -> bool {
+        if op < n {
+            solver.solve(&**chalk, &alpha[op].peeled.ugoal).0.is_ok()
+        } else {
+            solver.solve_multiple(&**chalk, &alpha[op - n].peeled.ugoal, &mut |_a, _next| false).0.is_ok()
+        }
+    };
+    let op_text = |op: usize| -> String {
+        if op < n {
+            alpha[op].text.to_string()
+        } else {
+            format!("first answer of {}", alpha[op - n].text)
+        }
+    };
     for _depth in 0..max_depth {
         let mut next = vec![];
         for hist in &frontier {
+            // state extenders that are not judged
+            for &op in &enum_ops {
+                let mut solver = AnySolver::new(cfg);
+                if !hist.iter().all(|&h| apply(&mut solver, h)) {
+                    rep.machinery_error(format!("replay of history {:?} diverged on {}", hist, prog_text));
+                    continue;
+                }
+                *local.entry("enumeration_prefix_transitions".into()).or_insert(0) += 1;
+                if apply(&mut solver, op) {
+                    if seen.insert(solver.fingerprint()) {
+                        let mut h = hist.clone();
+                        h.push(op);
+                        next.push(h);
+                    }
+                } else {
+                    *local.entry("enumeration_prefix_not_returning(not judged here)".into()).or_insert(0) += 1;
+                }
+            }
             for (k, g) in alpha.iter().enumerate() {
                 // rebuild the state by replaying the history on a fresh solver
                 let mut solver = AnySolver::new(cfg);
                 let mut diverged = false;
                 for &h in hist {
-                    let (r, _) = solver.solve(&**chalk, &alpha[h].peeled.ugoal);
                     *local.entry("replay_calls".into()).or_insert(0) += 1;
-                    if !r.is_ok() {
+                    if !apply(&mut solver, h) {
                         diverged = true;
                         break;
                     }
@@ -89,7 +129,7 @@ pub fn explore(
                 }
                 let (r, _) = solver.solve(&**chalk, &g.peeled.ugoal);
                 *local.entry("transitions".into()).or_insert(0) += 1;
-                let hist_text = || hist.iter().map(|&h| alpha[h].text.to_string()).collect::<Vec<_>>();
+                let hist_text = || hist.iter().map(|&h| op_text(h)).collect::<Vec<_>>();
                 let input = || json!({"program": prog_text, "history": hist_text(), "goal": g.text, "solver": cfg.name()});
                 let returned = r.is_ok();
                 match decode_caught(chalk, g.peeled, r) {
